@@ -133,7 +133,7 @@ def run(v) -> None:
                       "integer-typed outputs (uint8 mean) compared exactly with the floor of the exact mean"]
     v.add_tlc(tlc.must_pass(tlc.run("MC_Filters1D", "MC_Filters1D.cfg", workers=4), "MC_Filters1D"), "MC_Filters1D")
     cases = []
-    maxn = 8 if quick else 12
+    maxn = 8 if quick else 14
     for dt in ("f4", "f8", "u1"):
         for n in range(1, maxn + 1):
             ws = list(range(1, 2 * n + 4))
